@@ -344,8 +344,11 @@ static ChildResult shrink(const Property* P, uint64_t seed, uint64_t index, bool
 // ---------------------------------------------------------------- replay files
 static std::string write_replay(const Property* P, uint64_t seed, uint64_t index, bool thorough, const ChildResult& r,
                                 const std::string& dir_override = "") {
-    std::string dir = dir_override.empty() ? g_verif + "/replays/" + P->id : dir_override;
-    mkdir((g_verif + "/replays").c_str(), 0755);
+    // VERIF_REPLAY_ROOT: tools/run_seeded.sh keeps replays of deliberately broken trees out of /verif/replays
+    const char* rr = getenv("VERIF_REPLAY_ROOT");
+    std::string root = rr && *rr ? std::string(rr) : g_verif + "/replays";
+    std::string dir = dir_override.empty() ? root + "/" + P->id : dir_override;
+    mkdir(root.c_str(), 0755);
     mkdir(dir.c_str(), 0755);
     char name[256];
     snprintf(name, sizeof name, "%s/%" PRIu64 "-%" PRIu64 "-%08x.json", dir.c_str(), seed, index,
